@@ -867,11 +867,11 @@ impl<S: BitmapSlice + Send + Sync> FileSystem for PassthroughFs<S> {
         // Manually implement File::try_clone() by borrowing fd of data.file instead of dup().
         // It's safe because the `data` variable's lifetime spans the whole function,
         // so data.file won't be closed.
-        let f = unsafe { File::from_raw_fd(data.borrow_fd().as_raw_fd()) };
+        // Wrapped in ManuallyDrop right away: `data` owns the fd, it must not be closed when
+        // we return early.
+        let mut f = ManuallyDrop::new(unsafe { File::from_raw_fd(data.borrow_fd().as_raw_fd()) });
 
         self.check_fd_flags(data.clone(), f.as_raw_fd(), flags)?;
-
-        let mut f = ManuallyDrop::new(f);
 
         w.write_from(&mut *f, size as usize, offset)
     }
@@ -894,16 +894,16 @@ impl<S: BitmapSlice + Send + Sync> FileSystem for PassthroughFs<S> {
         // Manually implement File::try_clone() by borrowing fd of data.file instead of dup().
         // It's safe because the `data` variable's lifetime spans the whole function,
         // so data.file won't be closed.
-        let f = unsafe { File::from_raw_fd(data.borrow_fd().as_raw_fd()) };
+        // Wrapped in ManuallyDrop right away: `data` owns the fd, it must not be closed when
+        // we return early.
+        let mut f = ManuallyDrop::new(unsafe { File::from_raw_fd(data.borrow_fd().as_raw_fd()) });
 
         self.check_fd_flags(data.clone(), f.as_raw_fd(), flags)?;
 
         if self.seal_size.load(Ordering::Relaxed) {
-            let st = stat_fd(&f, None)?;
+            let st = stat_fd(&*f, None)?;
             self.seal_size_check(Opcode::Write, st.st_size as u64, offset, size as u64, 0)?;
         }
-
-        let mut f = ManuallyDrop::new(f);
 
         // Cap restored when _killpriv is dropped
         let _killpriv =
